@@ -5,6 +5,7 @@ package main
 import (
 	"go/ast"
 	"go/token"
+	"sort"
 	"strings"
 )
 
@@ -104,9 +105,36 @@ func genC09() {
 	files := pkgFiles("account/watcher")
 	nb := findFunc(files, "expiryWatcher.NewBlock")
 	add := findFunc(files, "expiryWatcher.AddAccountExpiration")
-	od := findFunc(files, "expiryWatcher.overdueExpirations")
-	if nb == nil || add == nil || od == nil {
-		fail("expiryWatcher methods not found")
+	if nb == nil || add == nil {
+		fail("expiryWatcher.NewBlock / AddAccountExpiration not found")
+		return
+	}
+	// the per-height worker: whatever method of the watcher NewBlock calls
+	// from inside its loop over expirationsPerHeight (its name is free)
+	var od *ast.FuncDecl
+	ast.Inspect(nb.Body, func(n ast.Node) bool {
+		rs, ok := n.(*ast.RangeStmt)
+		if !ok || exprString(rs.X) != "w.expirationsPerHeight" {
+			return true
+		}
+		ast.Inspect(rs.Body, func(m ast.Node) bool {
+			if ce, ok := m.(*ast.CallExpr); ok && od == nil {
+				if se, ok := ce.Fun.(*ast.SelectorExpr); ok {
+					if id, ok := se.X.(*ast.Ident); ok && id.Name == "w" {
+						od = findFunc(files, "expiryWatcher."+se.Sel.Name)
+					}
+				}
+			}
+			return true
+		})
+		return false
+	})
+	if od == nil {
+		// the pre-fix shape: NewBlock calls the worker directly
+		od = findFunc(files, "expiryWatcher.overdueExpirations")
+	}
+	if od == nil {
+		fail("expiryWatcher: per-height worker called by NewBlock not found")
 		return
 	}
 	bucketCond, addCond, skipCond := "", "", ""
@@ -144,18 +172,7 @@ func genC09() {
 			addCond = c09StripRecv(canonCmp(c09ResolveLocal(add, is.Cond)))
 		}
 	}
-	ast.Inspect(od.Body, func(n ast.Node) bool {
-		if is, ok := n.(*ast.IfStmt); ok && skipCond == "" {
-			if len(is.Body.List) == 1 {
-				if br, ok := is.Body.List[0].(*ast.BranchStmt); ok &&
-					br.Tok == token.CONTINUE {
-
-					skipCond = canonCmp(is.Cond)
-				}
-			}
-		}
-		return true
-	})
+	skipCond = c09SkipCond(od)
 	// every use of the mutex anywhere in the package, as "func:stmt"
 	var mutexUses []string
 	for _, f := range files {
@@ -189,4 +206,100 @@ func genC09() {
 	l.p("def overdueSkipCond : String := %q", skipCond)
 	l.p("def mutexUses : List String := %s", leanStrList(mutexUses))
 	l.p("end Pool.Gen.C09")
+}
+
+// c09SkipCond returns, in a name-independent canonical form, the condition
+// under which the per-height worker skips an entry (`continue`): the
+// disjunction of all guards of `continue` branches (if statements or cases of
+// a tagless switch). Roles: $height = the worker's first parameter, $cur / $ok
+// = the two results of the lookup in w.expirations.
+func c09SkipCond(fd *ast.FuncDecl) string {
+	roles := map[string]string{}
+	if fd.Type.Params != nil && len(fd.Type.Params.List) > 0 &&
+		len(fd.Type.Params.List[0].Names) > 0 {
+
+		roles[fd.Type.Params.List[0].Names[0].Name] = "$height"
+	}
+	ast.Inspect(fd.Body, func(n ast.Node) bool {
+		as, ok := n.(*ast.AssignStmt)
+		if !ok || len(as.Lhs) != 2 || len(as.Rhs) != 1 {
+			return true
+		}
+		ix, ok := as.Rhs[0].(*ast.IndexExpr)
+		if !ok || exprString(ix.X) != "w.expirations" {
+			return true
+		}
+		if a, ok := as.Lhs[0].(*ast.Ident); ok {
+			roles[a.Name] = "$cur"
+		}
+		if b, ok := as.Lhs[1].(*ast.Ident); ok {
+			roles[b.Name] = "$ok"
+		}
+		return true
+	})
+	var render func(e ast.Expr) string
+	render = func(e ast.Expr) string {
+		switch x := e.(type) {
+		case *ast.ParenExpr:
+			return render(x.X)
+		case *ast.Ident:
+			if r, ok := roles[x.Name]; ok {
+				return r
+			}
+			return x.Name
+		case *ast.UnaryExpr:
+			return x.Op.String() + render(x.X)
+		case *ast.BinaryExpr:
+			a, b := render(x.X), render(x.Y)
+			if (x.Op == token.EQL || x.Op == token.NEQ) && b < a {
+				a, b = b, a
+			}
+			return a + " " + x.Op.String() + " " + b
+		}
+		return exprString(e)
+	}
+	var disj []string
+	var split func(e ast.Expr)
+	split = func(e ast.Expr) {
+		if p, ok := e.(*ast.ParenExpr); ok {
+			split(p.X)
+			return
+		}
+		if b, ok := e.(*ast.BinaryExpr); ok && b.Op == token.LOR {
+			split(b.X)
+			split(b.Y)
+			return
+		}
+		disj = append(disj, render(e))
+	}
+	endsInContinue := func(body []ast.Stmt) bool {
+		if len(body) == 0 {
+			return false
+		}
+		br, ok := body[len(body)-1].(*ast.BranchStmt)
+		return ok && br.Tok == token.CONTINUE
+	}
+	ast.Inspect(fd.Body, func(n ast.Node) bool {
+		switch x := n.(type) {
+		case *ast.IfStmt:
+			if endsInContinue(x.Body.List) {
+				split(x.Cond)
+			}
+		case *ast.SwitchStmt:
+			if x.Tag != nil {
+				return true
+			}
+			for _, st := range x.Body.List {
+				cc := st.(*ast.CaseClause)
+				if endsInContinue(cc.Body) {
+					for _, c := range cc.List {
+						split(c)
+					}
+				}
+			}
+		}
+		return true
+	})
+	sort.Strings(disj)
+	return strings.Join(disj, " || ")
 }
